@@ -2253,7 +2253,10 @@ def detect_expand_template_loop(stack: list[str]) -> bool:
         for i in range(stack_len - pattern_size):
             if (stack_len - i) % pattern_size == 0:
                 pattern = stack[i : i + pattern_size]
-                if pattern[0].startswith("ARGVAL-"):
+                if pattern[0].startswith(("ARGVAL-", "ARGNAME")):
+                    # the call that follows is made from an argument value
+                    # or an argument name, i.e. in the caller's frame, not
+                    # from the body of the template before it
                     continue
                 if pattern * ((stack_len - i) // pattern_size) == stack[i:]:
                     return True
